@@ -618,6 +618,21 @@ theorem C17_exact_actions_text (pdir : Option Str) (env : Cond.Env) (hfl : C11Sp
       = .ok (items.flatMap (ExpandTable.exactActs pdir)) :=
   ExpandTable.expand_exact_actions pdir env hfl hex h hn ha hok nl
 
+/-- **`C17_inexact_actions_text`: keeps the original constraints for inexact mode, through the table reader.**  For every
+successful expansion (`addExactBlock`; items `itemOK`; pre-existing exact blocks or not) and every list of setup types that
+does *not* hold `exact`, the reader's model applied to the text of the expanded table returns exactly what it makes of the
+lines of the input, in their order — the setup lines as `subSetup` rewrote them (`C17_keeps_constraints_written`), the lines
+passed through, the final block — and none of the pins: in inexact mode the expanded table is the original table with
+versions and constraints added. -/
+theorem C17_inexact_actions_text (pdir : Option Str) (env : Cond.Env) (hfl : C11Spec.flavorOK env.flavor = true)
+    (hne : env.types.contains ExpandTable.sExactW = false)
+    (A : Answers) (o : Opts) (lines : List Str) (items : List Item)
+    (h : expandItems A o lines = .ok items) (ha : o.addExactBlock = true)
+    (hok : ∀ it ∈ items, ExpandTable.itemOK pdir it = true) (nl : Bool) :
+    TableParse.tableActions TableParse.repaired pdir env (ExpandTable.expandedText items nl)
+      = .ok (items.flatMap (ExpandTable.inexactActs pdir)) :=
+  ExpandTable.expand_inexact_actions pdir env hfl hne h ha hok nl
+
 /-- **`applies_exact_branch` and the text half of `pin_sets_exactly`, discharged.**  Under `inertItem` (the lines passed
 through are not setup / unsetup commands for the parser) the actions of the expanded table in exact mode that set a product
 up or take one away are, in order and each once, the pin actions of the collected closure `desiredProducts` — nothing of the
@@ -910,6 +925,48 @@ example : (match ExpandTable.expandParts D1.toAnswers o1 T1 with
     | .ok p => (C11Spec.denoteTable exactEnv1 (C11Spec.tableAbs (ExpandTable.tableOf none p))).map (·.cmd)
         == [str! "envPrepend", str! "setupRequired", str! "setupRequired", str! "setupRequired", str! "envSet"]
     | .error _ => false) = true := by decide +kernel
+
+/-- `C17_exact_reproduces_text_blocks` is not vacuous: every hypothesis holds of the example table `T1` (flavor block
+included), the later C01 database `setupCfg1` and the clean state `setupSt1`; so reading the expanded text in exact mode
+for flavor Linux and running the setup commands it yields leaves exactly the build-time records `b 1`, `c 2`, `d 1`. -/
+example : ∃ acts s', TableParse.tableActions TableParse.repaired none exactEnv1 (ExpandTable.expandedText items1 true) = .ok acts ∧
+    acts.filterMap ExpandTable.toPin = items1.filterMap pinKey ∧
+    Setup.acts (Setup.setup setupCfg1 2) setupCfg1 true 0 false exactVro topDecl1 ((acts.filterMap ExpandTable.toPin).map pinAct) setupSt1 = .ok s' ∧
+    ∀ n, o1.toplevel ≠ some n → recNames s'.env n = D1.toAnswers.sv n :=
+  C17_exact_reproduces_text_blocks setupCfg1 rfl rfl 1 topDecl1 setupSt1 none exactEnv1 (by decide) (by decide)
+    D1.toAnswers o1 T1 items1 expand1 (by decide +kernel) rfl (by decide +kernel) (by decide +kernel)
+    (depsSound_of_data (by decide +kernel)) (pinsAgree_of_data (by decide +kernel)) (covered_of_data (by decide +kernel))
+    (by
+      intro n v h
+      have hm := lookup_mem (l := D1.sv) h
+      have : ∀ e ∈ D1.sv, declaredS setupCfg1 e.1 e.2 = true := by decide +kernel
+      exact this (n, v) hm)
+    (by
+      intro n hne
+      have hna : (str! "a") ≠ n := fun e => hne (by rw [← e]; rfl)
+      simp [setupSt1, Setup.aget, Setup.Env.rec?, hna])
+    (by
+      intro v n htl
+      have : n = str! "a" := by
+        have : some (str! "a") = some n := htl
+        exact (Option.some.inj this).symm
+      subst this
+      have hp : (items1.filterMap pinKey).map (·.2) = [(str! "b", str! "1"), (str! "c", str! "2"), (str! "d", str! "1")] := by decide +kernel
+      rw [hp]
+      simp) true
+
+/-- `C17_inexact_actions_text` on the example: in build mode the expanded text yields the rewritten setup lines and the
+`envPrepend` line, no pin. -/
+example : (items1flat.flatMap (ExpandTable.inexactActs none)).map (fun a => (a.cmd, a.args))
+    = [(str! "setupRequired", [str! "b", str! "1", str! "[>=", str! "1]"]), (str! "envPrepend", [str! "PATH", str! "${PRODUCT_DIR}/bin"]),
+       (str! "setupRequired", [str! "d", str! "-j", str! "1", str! "[>=", str! "1]"]), (str! "setupRequired", [str! "x"])] := by
+  decide +kernel
+example : TableParse.tableActions TableParse.repaired none ⟨str! "Linux", [str! "build"]⟩ (ExpandTable.expandedText items1flat true)
+    = .ok (items1flat.flatMap (ExpandTable.inexactActs none)) :=
+  C17_inexact_actions_text none ⟨str! "Linux", [str! "build"]⟩ (by decide) (by decide) D1.toAnswers o1 T1flat items1flat expand1flat rfl
+    (fun it hit => by
+      have : items1flat.all (fun it => ExpandTable.itemOK none it) = true := by decide +kernel
+      exact List.all_eq_true.mp this it hit) true
 
 /-- **`inertItem` cannot be dropped (observation O2).**  The expander recognises `setupRequired(` spelled exactly so; the
 table parser allows blanks before the parenthesis.  `setupRequired (x)` is passed through outside every block, the item is
